@@ -6,10 +6,8 @@ import TrionModel.Lemmas.SimpSound7
 namespace Trion.Simp
 open Trion
 
-theorem neutralizeRawE_proj (a : Arg) : (neutralizeRawE a).toRes = neutralizeRaw a := by
-  cases a with
-  | bin op l r =>
-    simp only [neutralizeRawE, neutralizeRaw, normAddSub, neutralTail, opOf]
+theorem neutralizeBinE_proj (op : BinOp) (l r : Arg) : (neutralizeBinE op l r).toRes = neutralizeBin op l r := by
+    simp only [neutralizeBinE, neutralizeBin, normAddSub, neutralTail, opOf]
     by_cases hop : op = .add ∨ op = .sub
     · simp only [hop, if_true]
       generalize stripNeg (decide (op = .sub)) r = s
@@ -45,6 +43,31 @@ theorem neutralizeRawE_proj (a : Arg) : (neutralizeRawE a).toRes = neutralizeRaw
       · by_cases h2 : isBad r = true
         · simp [h1, h2, ResE.toRes]
         · simp [h1, h2, ResE.toRes]
+
+theorem swappedE_proj (x : ResE (Bool × Arg) Arg) : (swappedE x).toRes = swapped x.toRes := by
+  cases x with
+  | ok p => rfl
+  | err e t => rfl
+  | panic => rfl
+
+theorem neutralizeRawE_proj (a : Arg) : (neutralizeRawE a).toRes = neutralizeRaw a := by
+  cases a with
+  | bin op l r =>
+    cases op <;> try (simp only [neutralizeRawE, neutralizeRaw]; exact neutralizeBinE_proj _ _ _)
+    cases l <;> try (simp only [neutralizeRawE, neutralizeRaw]; exact neutralizeBinE_proj _ _ _)
+    cases r <;> try (simp only [neutralizeRawE, neutralizeRaw]; exact neutralizeBinE_proj _ _ _)
+    rename_i c op2 x y
+    cases op2 <;> try (simp only [neutralizeRawE, neutralizeRaw]; exact neutralizeBinE_proj _ _ _)
+    simp only [neutralizeRawE, neutralizeRaw]
+    split
+    · rw [swappedE_proj, neutralizeBinE_proj]
+    · exact neutralizeBinE_proj _ _ _
+  | neg v =>
+    cases v <;> try rfl
+    rename_i op x y
+    cases op <;> try rfl
+    simp only [neutralizeRawE, neutralizeRaw]
+    rw [swappedE_proj, neutralizeBinE_proj]
   | _ => rfl
 
 theorem neutralizeE_proj_both :
@@ -78,7 +101,14 @@ theorem neutralizeE_proj_both :
     simp only [neutralizeE, neutralize]
     rw [← ih]
     cases neutralizeE v with
-    | ok p => rfl
+    | ok p =>
+      obtain ⟨c1, v'⟩ := p
+      simp only [ResE.toRes]
+      rw [← neutralizeRawE_proj]
+      cases neutralizeRawE (.neg v') with
+      | ok x => rfl
+      | err e t => rfl
+      | panic => rfl
     | err e t => rfl
     | panic => rfl
   case not =>
